@@ -258,7 +258,11 @@ mod imp {
         let logs: Arc<Mutex<Vec<RoundLog>>> = Arc::new(Mutex::new(vec![]));
         let l2 = logs.clone();
         let c2 = case.clone();
+        let _ = salsa::verif::take_trace();
+        salsa::verif::trace_enable(true);
         let oc = shuttle::rt::check(cfg, move || scenario(c2, l2));
+        salsa::verif::trace_enable(false);
+        let trace = salsa::verif::take_trace();
         out.steps = oc.steps;
         out.add("sched_steps", oc.steps);
         out.add("context_switches", oc.switches);
@@ -283,6 +287,14 @@ mod imp {
             out.viol(class, 0, f.clone());
             return out;
         }
+        // C19: the recorded protocol trace must be accepted by the protocol model
+        out.add("proto_trace_ops", trace.len() as u64);
+        if std::env::var("VERIF_TRACE").is_ok() {
+            for t in &trace {
+                eprintln!("  proto {t:?}");
+            }
+        }
+        crate::proto::check_protocol(&trace, &mut out);
         let logs = logs.lock().unwrap_or_else(|e| e.into_inner()).clone();
         let prog = &case.prog;
         let faulty = case.panic_at.is_some();
